@@ -67,9 +67,59 @@ Proof.
   destruct (Nat.eqb_spec x a); split; intuition congruence.
 Qed.
 
+(* ---- frames: the decoders + IntoClientMessage + dispatch's removal test agree with the meaning of
+   the frame (Spec.spec_class), frame by frame, for both sub-protocols ---- *)
+Lemma decode_class : forall p f,
+  match decode p f with
+  | None => spec_class p f = FcFault
+  | Some m =>
+    match w_type m with
+    | WPing | WPong => spec_class p f = FcNone
+    | _ => match w_id m with
+           | None => spec_class p f = FcNone
+           | Some w => spec_class p f = FcSub w (into_client m) /\ wire_terminal (w_type m) = terminal (into_client m)
+           end
+    end
+  end.
+Proof. intros [] [[] [w|] []]; cbv; auto. Qed.
+
+Arguments decode : simpl never.
+Arguments into_client : simpl never.
+Arguments spec_class : simpl never.
+
+(* the shape of a step that reads a frame *)
+Lemma upmsg_cases : forall s c f s1 e1, step s (UpMsg c f) = Some (s1, e1) ->
+  exists x, cns s c = Some x /\ c_rl x = RLRun /\ c_closed x = false /\ c_dead x = None /\
+  match spec_class (c_proto x) f with
+  | FcFault => s1 = set_cn s c (c_kill x CUpstream) /\ e1 = [OUp c (c_proto x) f; OSrvClosed c]
+  | FcNone => s1 = s /\ e1 = [OUp c (c_proto x) f]
+  | FcSub w k =>
+    (mem_nat w (map fst (seen s)) || Nat.leb (next_w s) w = true) /\
+    ((exists i, lookup w (c_subs x) = Some i /\ e1 = [OUp c (c_proto x) f; ODeliver i k]
+                /\ s1 = if terminal k then set_cn s c (c_set_rl x (RLRemove w)) else s)
+     \/ (lookup w (c_subs x) = None /\ s1 = s /\ e1 = [OUp c (c_proto x) f]))
+  end.
+Proof.
+  intros s c f s1 e1 H. simpl in H.
+  destruct (cns s c) as [x|] eqn:Hc; [|discriminate]. exists x. split; auto.
+  destruct (c_rl x) eqn:Hrl; try discriminate.
+  destruct (c_closed x) eqn:Hcl; try discriminate.
+  destruct (c_dead x) eqn:Hd; try discriminate.
+  repeat split; auto.
+  pose proof (decode_class (c_proto x) f) as D.
+  destruct (decode (c_proto x) f) as [m|].
+  - destruct (w_type m) eqn:Et;
+      try (rewrite D; inversion H; subst; auto; fail);
+      (destruct (w_id m) as [w|]; [destruct D as [D1 D2]; rewrite D1|rewrite D; inversion H; subst; auto]);
+      (destruct (mem_nat w (map fst (seen s)) || Nat.leb (next_w s) w) eqn:Em; [|discriminate]);
+      (split; [reflexivity|]);
+      (destruct (lookup w (c_subs x)) as [i|]; [left; exists i|right]; inversion H; subst; rewrite <- ?D2; auto).
+  - rewrite D. inversion H; subst; auto.
+Qed.
+
 (* ---- shut / remove_sub ---- *)
 Definition shut_conn (x : conn) (cz : cause) : conn :=
-  {| c_key := c_key x; c_subs := []; c_closed := true;
+  {| c_key := c_key x; c_proto := c_proto x; c_subs := []; c_closed := true;
      c_dead := match c_dead x with None => Some cz | d => d end;
      c_timers := c_timers x; c_rl := c_rl x; c_rm := true |}.
 
